@@ -21,7 +21,7 @@ func init() {
 			"R3: items.Add on the miss path is dominated by the nil edge of the create function's error. R4: the create call is dominated by the not-found edge of items.Get. " +
 			"R5: the expirable wrapper removes and re-creates exactly on the GetExpiresAt().Before(now) edge and returns the value unchanged otherwise. " +
 			"R6: from the found edge of items.Get(k) every path to the return passes items.Remove(k) and then items.Add(k, same value). R7: from the success edge of the create call every path to an exit inserts the value. " +
-			"M1-M8: the ordered map keeps its list consistent (the rules of C10), since eviction order is the list order.",
+			"M1-M8: the ordered map keeps its list consistent (the rules of C10), since eviction order is the list order. R8: the expiry wrapper does not apply its staleness test to the result of GetOrCreate (which may be the value this call created) followed by an unconditional Remove of the key in a separate critical section (open finding).",
 		NotDecided: "refinement of a reference LRU over all call sequences; callback accounting as a count.",
 	})
 	register(&Check{
@@ -125,6 +125,7 @@ func (r *lruRoles) isLock(in ssa.Instruction) bool {
 
 func runC08(c *Ctx) {
 	lruSequentialRules(c, "C08.R")
+	c.expirableAtomicity(resolveLRURoles(c), "C08.R8")
 	// M: the ordered map under the recency list
 	mapRules(c, "C08.M")
 }
@@ -877,4 +878,88 @@ func lruCapacityRule(c *Ctx, r *lruRoles, rule string) {
 			}
 		})
 	}
+}
+
+// expirableAtomicity (C08.R8): the expiry wrapper decides staleness on whatever the inner GetOrCreate returned - which
+// may be a value created by this very call - and then removes by key, in separate critical sections. Sequentially a
+// create function that returns an already expired item makes ONE miss call create twice (and a failing second creation
+// leaves the eviction of the first one behind: "a failed creation changes nothing" is broken); concurrently two callers
+// that saw the same stale item both Remove(k), the second one destroying the fresh replacement of the first. The
+// structural clause: the staleness test is not applied to the result of GetOrCreate followed by an unconditional
+// Remove of the key (it belongs on the hit path under the cache lock).
+func (c *Ctx) expirableAtomicity(r *lruRoles, rule string) {
+	exp := c.P.LookupType("container/lru", "ExpirableCache")
+	if exp == nil {
+		c.Fatalf("role ExpirableCache not found")
+	}
+	fn := c.RequireFn(c.P.MethodOf(exp, "GetOrCreate"), "ExpirableCache.GetOrCreate")
+	c.KeyByRole(fn, "lru.expirableGetOrCreate")
+	isGOC := func(call *ssa.Call) bool {
+		cal := ir.StaticCallee(call)
+		return cal != nil && cal != fn && (cal == r.getOrCreate || cal.Name() == "GetOrCreate")
+	}
+	isRemove := func(call *ssa.Call) bool {
+		cal := ir.StaticCallee(call)
+		return cal != nil && (cal == r.remove || cal.Name() == "Remove")
+	}
+	// staleness tests whose subject is the result of GetOrCreate
+	var fromGOC func(v ssa.Value, d int) bool
+	fromGOC = func(v ssa.Value, d int) bool {
+		if d > 6 || v == nil {
+			return false
+		}
+		for _, o := range ir.Origins(v) {
+			switch x := o.(type) {
+			case *ssa.Extract:
+				if call, ok := x.Tuple.(*ssa.Call); ok && isGOC(call) {
+					return true
+				}
+			case *ssa.Call:
+				if isGOC(x) {
+					return true
+				}
+				if x.Call.IsInvoke() {
+					if fromGOC(x.Call.Value, d+1) {
+						return true
+					}
+				}
+				for _, a := range x.Call.Args {
+					if fromGOC(a, d+1) {
+						return true
+					}
+				}
+			case *ssa.MakeInterface:
+				if fromGOC(x.X, d+1) {
+					return true
+				}
+			}
+		}
+		return false
+	}
+	bad := false
+	var at ssa.Instruction
+	for _, call := range ir.Calls(fn) {
+		cc, ok := call.(*ssa.Call)
+		if !ok || !isRemove(cc) {
+			continue
+		}
+		stale := ir.HasFact(cc.Block(), func(f ir.Fact) bool {
+			f = f.StripNot()
+			t, ok := f.Cond.(*ssa.Call)
+			if !ok {
+				return false
+			}
+			switch ir.CalleeFullName(t) {
+			case "(time.Time).Before", "(time.Time).After":
+				return fromGOC(t.Call.Args[0], 0) || fromGOC(t.Call.Args[1], 0)
+			}
+			return false
+		})
+		if stale {
+			bad = true
+			at = cc
+		}
+	}
+	c.Decide(rule, fn, "stale-test-on-GetOrCreate-result-then-Remove-by-key", at, !bad,
+		"the wrapper tests the expiration of whatever GetOrCreate returned (possibly the value this call just created) and then removes by key in a separate critical section: a create function returning an already expired item makes one miss create twice and run the delete callback for a value no caller saw (a failing second creation leaves the first one's eviction behind), and two concurrent callers that saw the same stale item both Remove(k) - the second destroys the fresh replacement")
 }
